@@ -4,7 +4,7 @@
    call diverges (fuel is never exhausted) in any reachable state; the iterators return (Ok) and
    yield each node (edge) at most once. *)
 From IT Require Import Props.
-From IT.proofs Require Import Reach Reach2.
+From IT.proofs Require Import Reach Reach2 MonitorSound.
 From IT.proofs Require ReprTree.
 
 Theorem C02_parent_chain : forall ops, valid_hist false init ops -> forall x, live (ar (reach ops)) x ->
@@ -41,7 +41,15 @@ Proof. exact reach_total. Qed.
 Theorem C02_monitor_silent : forall ops, valid_hist false init ops -> c02_check (ar (reach ops)) = [].
 Proof. exact reach_c02_silent. Qed.
 
+(* soundness of the monitor for ARBITRARY arenas: silent => all three walks from every live node end *)
+Theorem C02_monitor_sound : forall a, c02_check a = [] -> forall x, live a x ->
+  (exists l, is_path a parent x l /\ (length l <= length (nodes a))%nat) /\
+  (exists l, is_path a next x l /\ (length l <= length (nodes a))%nat) /\
+  (exists l, is_path a prev x l /\ (length l <= length (nodes a))%nat).
+Proof. exact c02_check_sound. Qed.
+
 Print Assumptions C02_parent_chain.
+Print Assumptions C02_monitor_sound.
 Print Assumptions C02_next_sibling_chain.
 Print Assumptions C02_prev_sibling_chain.
 Print Assumptions C02_predecessors_finite.
